@@ -416,6 +416,34 @@ def h_rekey_roles(who):
 KINDS = ('response', 'dpd', 'del_child', 'rekey_child', 'new_child', 'rekey_ike', 'del_ike')
 
 
+def h_retry_ids(sit):
+    """a request that was REPEATED because of an INVALID_KE_PAYLOAD answer to a CREATE_CHILD_SA request (new CHILD_SA, CHILD_SA rekey, IKE_SA rekey) is the one outstanding request from then on:
+    whatever the retransmission timer puts on the wire afterwards (at an arbitrary instant past the deadline) carries the Message ID of the repeated
+    request - the endpoint never re-uses the ID of the exchange that is over, never has two requests outstanding"""
+    from symx import core
+    from . import c13
+    eng = core.engine()
+    c13.MODS = MODS
+    ik = MODS['ikesa'].IkeSa
+    S = ik.State
+    p, me, E, sent, other = c13.situation(sit)
+    sent = bytes(sent)
+    mid_sent = int.from_bytes(sent[20:24], 'big')
+    if mid_sent != me.my_msg_id:
+        return {'class': ['retry_ids'], 'violation': f'{sit}: the repeated request carries Message ID {mid_sent}, the endpoint counts {me.my_msg_id}'}
+    late = eng.sym_int('late_ms', 1, 4000)
+    world.ENV.now = world.T(me.retransmit_at.ms + late)
+    again = E.call(me.check_retransmission_timer)
+    if again is None:
+        return {'class': ['retry_ids'], 'violation': f'{sit}: nothing is retransmitted although the deadline of the outstanding request has passed'}
+    again = bytes(again)
+    mid = int.from_bytes(again[20:24], 'big')
+    if mid != mid_sent or again[18] != sent[18]:
+        return {'class': ['retry_ids'], 'violation': f'{sit}: after the repeated request (Message ID {mid_sent}, exchange {sent[18]}) the retransmission timer emits a '
+                                                     f'request with Message ID {mid}, exchange {again[18]}: the ID of an exchange that is over is used again'}
+    return ['retry_ids', sit]
+
+
 def build_instances(tier):
     inst = [Instance('two IKE_SAs of one process answer the same Message ID', h_two_sas, (), native=common.native_of(h_two_sas), engine_kw={'max_ticks': 10 ** 7},
                      must_reach=[('ok', lambda o: o[0] == 'two_sas')])]
@@ -434,6 +462,9 @@ def build_instances(tier):
                                      native=nat(h_window),
                                      must_reach=[('a handler ran', lambda o: o[:2] == ['step', 'ran']),
                                                  ('silent drop', lambda o: o == ['step', 'idle', 'silent'])]))
+    for sit in ('child_invalid_ke', 'rekey_child_invalid_ke', 'rekey_ike_invalid_ke'):      # IKE_SA_INIT retries: h_init_retries
+        inst.append(Instance(f'retransmission after a repeated request: {sit}', h_retry_ids, (sit,), native=common.native_of(h_retry_ids), engine_kw={'max_ticks': 10 ** 7},
+                             must_reach=[('ok', lambda o: o[0] == 'retry_ids')]))
     for kind in ('plain', 'cookie', 'invalid_ke', 'both'):
         inst.append(Instance(f'IKE_SA_INIT tries: {kind}', h_init_retries, (kind,), native=nat(h_init_retries), must_reach=[('ok', lambda o: o[0] == 'init_retries')]))
     for who in ('A', 'B'):
